@@ -73,10 +73,49 @@ var (
 	soloTask = &Task{id: -1}
 )
 
-// InitSites sizes the per-site hit counters and installs the hook.
+// InitSites sizes the per-site hit counters and installs the hooks.
 func InitSites(n int) {
 	siteHits = make([]atomic.Uint32, n+1)
 	rt.Hook = hook
+	rt.MapOrder = mapOrder
+}
+
+// Map iteration order is owned by the simulator: the instrumented copy ranges
+// over verifsimrt.Keys(m) (sorted keys), which mapOrder permutes from a seed.
+// Seed 0 leaves the sorted order. The call counter makes successive ranges
+// see different permutations; it advances deterministically because exactly
+// one task runs at a time.
+var (
+	mapOrderSeed atomic.Uint64
+	mapOrderCtr  atomic.Uint64
+	mapOrderUsed atomic.Uint64
+)
+
+func SetMapOrder(seed uint64) {
+	raceDisable()
+	mapOrderSeed.Store(seed)
+	mapOrderCtr.Store(0)
+	raceEnable()
+}
+
+func MapOrderCalls() uint64 { raceDisable(); n := mapOrderUsed.Load(); raceEnable(); return n }
+
+func mapOrder(n int, swap func(i, j int)) {
+	raceDisable()
+	seed := mapOrderSeed.Load()
+	c := mapOrderCtr.Add(1)
+	if n >= 2 {
+		mapOrderUsed.Add(1)
+	}
+	raceEnable()
+	if seed == 0 || n < 2 {
+		return
+	}
+	x := splitmix64(seed + c*0x9e3779b97f4a7c15)
+	for i := n - 1; i > 0; i-- {
+		x = splitmix64(x)
+		swap(i, int(x%uint64(i+1)))
+	}
 }
 
 func hook(site int) {
